@@ -210,3 +210,55 @@ class MDPP(DPP):
         for r, i in enumerate(insts):
             p[r, i["probes"]] = True
         return p
+
+
+class DPPGen(DPP):
+    """GENERATOR-FED family: the instances are drawn from the real DPPGenerator (synthetic chip data) instead of being
+    written down by the harness, so the environment model's input contract InstanceOK (DPP: the generator itself clears the
+    probe bit of the mask it hands over) is checked on what the generator actually emits, and the recorded episodes are
+    judged against the cells the problem definition forbids: the probing port td["probe"] and the keep-out cells."""
+    name = tag = "dpp_gen"
+    properties = ("C08",)
+    draws = {"quick": [(3, 2, 24)], "thorough": [(3, 2, 48), (3, 3, 48), (4, 3, 32)]}      # (size, quota, batch)
+    keepout_range = (1, 3)
+
+    def gen_params(self, inst):
+        p = DPP.gen_params(self, inst)
+        p.update({"num_keepout_min": self.keepout_range[0], "num_keepout_max": self.keepout_range[1]})
+        return p
+
+    def family(self, tier, seed=0):
+        insts, seen = [], set()
+        for (size, k, b) in self.draws[tier]:
+            n = size * size
+            proto = {"N": n, "size": size, "K": k, "variant": self.variant}
+            env = self.make_env(proto)
+            with torch.random.fork_rng():
+                torch.manual_seed(4100 + 17 * seed + size + 100 * k)
+                td = env.generator(batch_size=[b])
+            for r in range(b):
+                if self.variant == "dpp":
+                    probes = [int(x) for x in td["probe"][r].reshape(-1).tolist()]
+                else:
+                    probes = [int(x) for x in td["probe"][r].reshape(-1).nonzero().flatten().tolist()]
+                avail0 = [int(x) for x in td["action_mask"][r].reshape(-1).nonzero().flatten().tolist()]
+                keepout = [c for c in range(n) if c not in avail0 and c not in probes]
+                key = (size, k, tuple(probes), tuple(avail0))
+                if key in seen:
+                    continue
+                seen.add(key)
+                insts.append(dict(proto, probes=probes, keepout=keepout, avail0=avail0, grid=1, envK=int(env.max_decaps)))
+        return with_ids(insts)
+
+
+class MDPPGen(DPPGen, MDPP):
+    name = tag = "mdpp_gen"
+    variant = "mdpp"
+
+    def gen_params(self, inst):
+        p = MDPP.gen_params(self, inst)
+        p.update({"num_keepout_min": self.keepout_range[0], "num_keepout_max": self.keepout_range[1]})
+        return p
+
+    make_env = MDPP.make_env
+    probe_tensor = MDPP.probe_tensor
